@@ -3,7 +3,7 @@
    than maximal_formation_count_for.  The invariant FormLimitsOK is inductive by itself: the only writer of
    s_forms is update_train_formation, whose per-node step replacement_in_formation never lengthens a formation
    except by the guarded push. *)
-From RS Require Import Base BaseFacts Network NetSpec Tour TourFacts Transition Schedule SchedInv SchedObs
+From RS Require Import SchedPeel Base BaseFacts Network NetSpec Tour TourFacts Transition Schedule SchedInv SchedObs
   SchedUnservedFacts SchedStruct.
 
 Section FL.
@@ -194,7 +194,7 @@ Lemma update_tours_FL s veh tours forms usage dummies ids dids uns costs p ntp r
     = Ok (veh1, tours2, forms2, usage2, dummies2, ids1, dids1, uns2, costs2) ->
   FL forms -> FL forms2.
 Proof.
-  unfold update_tours. intros H HI. cbv zeta in H.
+  intros H HI. apply update_tours_peel in H. unfold update_tours_prefix in H. cbv zeta in H.
   step_bind H.
   match goal with E : (match ntp with _ => _ end) = _ |- _ => clear E end.
   repeat step_bind H.
